@@ -19,6 +19,17 @@ class IterV(Val):
         self.ty = TJson()
 
 
+def enumeration_facts(S, order, es):
+    i, j = smt.BoundVar("si", smt.INT), smt.BoundVar("sj", smt.INT)
+    x = smt.BoundVar("sx", es)
+    return [
+        smt.Forall([i], Implies(And(smt.Le(IntVal(0), i), smt.Lt(i, Len(order))), smt.Select(S, smt.At(order, i)))),
+        smt.Forall([x], Implies(smt.Select(S, x), smt.Contains(order, smt.Unit(x)))),
+        smt.Forall([i, j], Implies(And(smt.Le(IntVal(0), i), smt.Lt(i, j), smt.Lt(j, Len(order))),
+                                   Not(Eq(smt.At(order, i), smt.At(order, j))))),
+    ]
+
+
 def iter_view(eng, st, v: Val, origin: str) -> IterV:
     d = eng.decls
     if isinstance(v, IterV):
@@ -45,16 +56,16 @@ def iter_view(eng, st, v: Val, origin: str) -> IterV:
     if isinstance(v, V) and isinstance(v.ty, TStr):
         return IterV(Len(v.t), lambda i: V(STR, smt.At(v.t, i)))
     if isinstance(v, V) and isinstance(v.ty, TSet):
-        # iteration over a set: an arbitrary enumeration without repetition of its members
+        # iteration over a set: an arbitrary enumeration without repetition of its members.  A contract may
+        # name that enumeration with a ghost parameter (spec function enumerates(order, S)).
         es = sort_of(v.ty.elem, d)
-        order = d.fresh("set_order", smt.SeqS(es))
-        i, j = smt.BoundVar("si", smt.INT), smt.BoundVar("sj", smt.INT)
-        x = smt.BoundVar("sx", es)
-        st.assume(smt.Forall([i], Implies(And(smt.Le(IntVal(0), i), smt.Lt(i, Len(order))),
-                                          smt.Select(v.t, smt.At(order, i)))))
-        st.assume(smt.Forall([x], Implies(smt.Select(v.t, x), smt.Contains(order, smt.Unit(x)))))
-        st.assume(smt.Forall([i, j], Implies(And(smt.Le(IntVal(0), i), smt.Lt(i, j), smt.Lt(j, Len(order))),
-                                             Not(Eq(smt.At(order, i), smt.At(order, j))))))
+        named = getattr(eng, "_set_orders", {}).get(v.t.s)
+        if named is not None:
+            order = named
+        else:
+            order = d.fresh("set_order", smt.SeqS(es))
+            for fact in enumeration_facts(v.t, order, es):
+                st.assume(fact)
         return IterV(Len(order), lambda k: wrap(eng, v.ty.elem, smt.At(order, k)))
     raise GenerationError(f"iteration over {v} at {origin}")
 
@@ -67,6 +78,11 @@ def b_len(eng, st, node, args, kwargs):
         return V(INT, IntVal(len(v.items)))
     if isinstance(v, V) and isinstance(v.ty, (TStr, TSeq)):
         return V(INT, Len(v.t))
+    if isinstance(v, V) and isinstance(v.ty, TSet):
+        # cardinality of a set: uninterpreted, non-negative (contracts that need more state it as a spec function)
+        n = eng.decls.fun("set_card_" + smt.mangle(v.t.sort), [v.t.sort], smt.INT)(v.t)
+        eng.decls.ground_axiom("card.nonneg", smt.Ge(n, IntVal(0)))
+        return V(INT, n)
     if isinstance(v, V) and isinstance(v.ty, TOpt):
         eng.may_raise(st, eng.decls.is_some(v.t), "TypeError", eng.origin(node))
         return b_len(eng, st, node, [wrap(eng, v.ty.inner, eng.decls.opt_val(v.t))], {})
